@@ -593,7 +593,7 @@ def compute_baseline(_=None):
         if f.name.endswith('.py'):
             v = module_view(f.content)
             if not v['compiles']:
-                return dict(error=f'baseline module {f.name} does not compile: {v["error"]}')
+                return dict(broken=f.name, detail=v['error'])
             sites = {o: sorted(q for q, (nt, val) in v['docs'].items() if MARK[o] in val) for o in ORIGINS}
             files[f.name] = dict(sha=hashlib.sha1(f.content.encode()).hexdigest(), view=v, skeleton=v['skeleton'], sites=sites)
     return dict(files=files)
@@ -664,6 +664,15 @@ def part_embed(chk, quick, rnd, pool):
     base = pool.submit(compute_baseline).result()
     if 'error' in base:
         raise core.MachineryError(base['error'])
+    if 'broken' in base:
+        # not a harness failure: with a harmless one-word comment at every origin the generator emits a module that
+        # is not valid Python, so embedding cannot be judged against a baseline; reported under its own key
+        rel = base['broken'][len(PKGDIR):] if base['broken'].startswith(PKGDIR) else base['broken']
+        chk.violation(f'embed:baseline-invalid:{rel}',
+                      f'with harmless comments {sorted(MARK.values())} the emitted module {base["broken"]} does not compile: '
+                      f'{base["detail"]}; docstring embedding not evaluated', dict(module=base['broken'], detail=base['detail']))
+        chk.extra['embedding'] = dict(skipped='baseline module does not compile')
+        return
     base = base['files']
     agg = Agg(chk, 'embed')
     nwarn = 0
